@@ -639,6 +639,7 @@ pub fn run(ctx: Ctx, replay: Option<PathBuf>) -> i32 {
     }
     let n_var = ctx.tier.pick(3usize, 6usize);
     let seeds = tape::sample_tapes(ctx.seed.wrapping_add(0x26), items.len(), 4096, 4096);
+    let mut layout_reported = std::collections::BTreeSet::new();
     let outcomes = par_map(&items, ctx.threads, |i, it| eval_layout(&ctx, &ctx.work.join(format!("l{i}")), it, &seeds[i], n_var));
     for (i, (it, oc)) in items.iter().zip(outcomes).enumerate() {
         if let Some(why) = oc.skipped {
@@ -656,7 +657,24 @@ pub fn run(ctx: Ctx, replay: Option<PathBuf>) -> i32 {
             ck.sample(json!({"part": "layout", "grammar": it.name, "perturbed": v.last().map(|s| s.chars().take(900).collect::<String>()), "outcome": if oc.failure.is_none() { "same token stream" } else { "DIFFERENT" }}));
         }
         if let Some((sig, what, variant)) = oc.failure {
-            // minimise the *original* token list: both layouts are re-derived from it
+            let (mut it, mut what, mut variant) = (it.clone(), what, variant);
+            if !ck.is_known(&sig) && layout_reported.insert(sig.clone()) {
+                // minimise the *original* text: the perturbed layouts are re-derived from it with the same tape
+                let seed = &seeds[i];
+                let small = gt::shrink_text(&it.text, 250, ctx.threads, |slot, cand| {
+                    let c = LItem { text: cand.to_string(), ..it.clone() };
+                    eval_layout(&ctx, &ctx.work.join(format!("shrink_l{slot}")), &c, seed, n_var).failure.map_or(false, |f| f.0 == sig)
+                });
+                let c = LItem { text: small, ..it.clone() };
+                if let Some(f) = eval_layout(&ctx, &ctx.work.join("shrink_l0"), &c, seed, n_var).failure {
+                    if f.0 == sig {
+                        it = c;
+                        what = f.1;
+                        variant = f.2;
+                    }
+                }
+            }
+            let it = &it;
             let rj = json!({
                 "part": "layout", "tape_hex": tape::hex(&it.tape),
                 "grammars": [{"name": it.name, "text": it.text, "flags": it.extra}, {"name": "perturbed layout", "text": variant, "flags": it.extra}],
